@@ -1053,6 +1053,11 @@ def maint_scenarios(ctx, minutes_q=60, minutes_t=150):
         out.append(("maint-p%d-m%d-g%d-f%d" % (p, m, g, f),
                     ["--scenario", "maint", "--peers", str(p), "--minutes", str(mins), "--seed", str(s0 + k), "--mask", str(m),
                      "--given", str(g), "--sendfail", str(f)]))
+    # two bootstrap contacts that do not know each other (the second is never named, names nobody and answers slowly)
+    for k, p in enumerate((5, 7) if q else (3, 4, 5, 6, 7, 8)):
+        out.append(("maint-strangers-p%d" % p,
+                    ["--scenario", "maint", "--peers", str(p), "--minutes", str(20 if q else 60), "--seed", str(s0 + 100 + k), "--mask", "0",
+                     "--given", "0", "--sendfail", "0", "--strangers", "1"]))
     return out
 
 
